@@ -41,5 +41,6 @@ func (a *AutoComplete) autoCompleteCallback(t *terminal.Terminal, line string, p
 		}
 		fmt.Fprintln(t.Out)
 	}
-	return commands[0][:l], l, true
+	// complete what is before the cursor, keep what is after it.
+	return commands[0][:l] + line[pos:], l, true
 }
